@@ -96,6 +96,8 @@ def run_shard(spec):
             items.append((tag, prog, [[str(i), str(d)] for i in (-1, 0, 2, 3) for d in (0, 1, 3)], lambda a: True))
         for tag, prog in faultgrid.vla_programs():
             items.append((tag, prog, [[str(n)] for n in faultgrid.vla_values(bits)], lambda a: abs(int(a[0])) <= 9))
+        for tag, prog in faultgrid.nonlocal_programs():
+            items.append((tag, prog, [[str(k), str(d)] for k in (0, 60, 99, 600) for d in (0, 1)], lambda a: True))
         for i, (tag, prog, argsets, near) in enumerate(items):
             if i % spec['parts'] != spec['part'] or (i // spec['parts']) % spec['stride'] != spec['offset']:
                 continue
